@@ -117,7 +117,8 @@ def _gen_spec(rng: Rng, want_mc, min_ports, profile, mc_triggers=False) -> dict:
     big = profile == 'default' and rng.chance(10)   # occasionally a large model: many ports, events and formals
 
     # ---- namespaces
-    ns_ids = [names.ident('ns', rng.choice(['upper', 'upper', 'lower', 'any'])) for _ in range(rng.between(1, 4))]
+    want_hom = rng.chance(30)
+    ns_ids = [names.ident('ns', rng.choice(['upper', 'upper', 'lower', 'any'])) for _ in range(rng.between(2 if want_hom else 1, 4))]
     for n in ns_ids:
         names.reserve('decl', n)
     paths = [[]]
@@ -125,6 +126,10 @@ def _gen_spec(rng: Rng, want_mc, min_ports, profile, mc_triggers=False) -> dict:
         base = rng.choice(paths)
         if len(base) < 3:
             p = base + [rng.choice(ns_ids)]
+            if p not in paths:
+                paths.append(p)
+    if want_hom:
+        for p in ([ns_ids[0]], [ns_ids[1]]):
             if p not in paths:
                 paths.append(p)
     comp_ns = rng.choice(paths)
@@ -149,17 +154,19 @@ def _gen_spec(rng: Rng, want_mc, min_ports, profile, mc_triggers=False) -> dict:
         ns = pick_ns()
         cpp, codec = rng.choice(EXTERN_CPP)
         externs.append({'kind': 'extern', 'ns': ns, 'name': fresh_name(ns), 'cpp': cpp, 'codec': codec})
-    # twins: the same simple name declared again in another namespace with a different data type (int/long and
-    # BoxA/BoxB convert into each other, so a name-keyed mix-up still compiles)
-    for _ in range(rng.between(0, 2)):
+    # twins: the same simple name declared again in another namespace with a different data type.  BoxA/BoxB convert
+    # into each other implicitly (spoiling the token), so a name-keyed mix-up still compiles but alters the argument;
+    # the other pairs do not convert, so a mix-up does not compile.
+    for _ in range(rng.weighted([(4, 0), (3, 1), (2, 2), (1, 3)])):
         src = rng.choice(externs)
         ns = pick_ns()
         if tuple(ns + [src['name']]) in fqns:
             continue
-        pair = {'boxa': ('::sim::BoxB', 'boxb'), 'boxb': ('::sim::BoxA', 'boxa'), 'int': ('long', 'long'), 'long': ('int', 'int')}.get(src['codec'])
-        if not pair:
-            src['cpp'], src['codec'] = '::sim::BoxA', 'boxa'
-            pair = ('::sim::BoxB', 'boxb')
+        if not src.get('twin'):
+            src['cpp'], src['codec'] = rng.weighted([(6, ('::sim::BoxA', 'boxa')), (2, ('int', 'int')), (1, ('::sim::Tracked', 'tracked'))])
+        pair = {'boxa': ('::sim::BoxB', 'boxb'), 'boxb': ('::sim::BoxA', 'boxa'), 'int': ('std::string', 'str'),
+                'tracked': ('::sim::BoxA', 'boxa'), 'str': ('int', 'int')}[src['codec']]
+        src['twin'] = True
         fqns.add(tuple(ns + [src['name']]))
         externs.append({'kind': 'extern', 'ns': ns, 'name': src['name'], 'cpp': pair[0], 'codec': pair[1], 'twin': True})
     # ---- namespace level enums / subints
@@ -176,9 +183,11 @@ def _gen_spec(rng: Rng, want_mc, min_ports, profile, mc_triggers=False) -> dict:
 
     # ---- interfaces
     interfaces = []
-    n_itf = rng.between(1, 4)
-    for _ in range(n_itf):
+    n_itf = rng.between(2 if want_hom else 1, 4)
+    for k_itf in range(n_itf):
         ns = pick_ns()
+        if want_hom and k_itf < 2:
+            ns = [ns_ids[k_itf]]   # two interfaces in unrelated sibling namespaces
         itf = {'kind': 'interface', 'ns': ns, 'name': fresh_name(ns, rng.choice(['upper', 'any'])),
                'enums': [], 'subints': [], 'events': []}
         itf_fqn = ns + [itf['name']]
@@ -197,6 +206,31 @@ def _gen_spec(rng: Rng, want_mc, min_ports, profile, mc_triggers=False) -> dict:
         for _ in range(n_ev):
             itf['events'].append(_event(rng, evnames, itf, externs, enums, subints, many_formals=big))
         interfaces.append(itf)
+
+    # ---- homonyms: one simple type name declared in two unrelated namespaces with different (mutually convertible)
+    # data types, each used by an interface of its own namespace - written with the same short spelling
+    hom_pair = None
+    if want_hom:
+        pairs = [(a, b) for a in interfaces for b in interfaces
+                 if a is not b and a['ns'] and b['ns'] and a['ns'][:len(b['ns'])] != b['ns'] and b['ns'][:len(a['ns'])] != a['ns']]
+        if pairs:
+            ia, ib = rng.choice(pairs)
+            tname = names.ident('decl', 'upper')
+            if tuple(ia['ns'] + [tname]) not in fqns and tuple(ib['ns'] + [tname]) not in fqns and (tname,) not in fqns:
+                types = rng.shuffle([('::sim::BoxA', 'boxa'), ('::sim::BoxB', 'boxb')])
+                hom_pair = (ia, ib)
+                for itf, (cpp, codec) in ((ia, types[0]), (ib, types[1])):
+                    ext = {'kind': 'extern', 'ns': list(itf['ns']), 'name': tname, 'cpp': cpp, 'codec': codec, 'twin': True}
+                    externs.append(ext)
+                    fqns.add(tuple(itf['ns'] + [tname]))
+                    if not itf['events']:
+                        itf['events'].append(_event(rng, NameGen(rng), itf, externs, enums, subints))
+                    for ev in rng.sample(itf['events'], min(len(itf['events']), rng.between(1, 2))):
+                        fdir = 'in' if ev['dir'] == 'out' else rng.weighted([(5, 'in'), (2, 'out'), (2, 'inout')])
+                        used = {f['name'] for f in ev['formals']}
+                        fname = next(n for n in ('hom', 'hom2', 'hom3', 'hom4') if n not in used)
+                        ev['formals'].insert(rng.below(len(ev['formals']) + 1),
+                                             {'name': fname, 'dir': fdir, 'ext': itf['ns'] + [tname], 'short': True})
 
     # ---- multi-client capable interface
     mc = None
@@ -278,6 +312,11 @@ def _gen_spec(rng: Rng, want_mc, min_ports, profile, mc_triggers=False) -> dict:
     inj_itfs = rng.shuffle(interfaces)[:n_inj]   # one instance per type lives in a locator: distinct interfaces
     for itf in inj_itfs:
         ports.append({'name': pnames.ident('port'), 'dir': 'requires', 'itf': itf['ns'] + [itf['name']], 'injected': True})
+    if hom_pair:
+        # both interfaces that use the homonym types are ports of the encapsulee
+        free = [p for p in ports if not p['injected'] and not (mc and p['name'] == mc.get('port'))]
+        for p, itf in zip(rng.shuffle(free)[:2], hom_pair):
+            p['itf'] = itf['ns'] + [itf['name']]
     if profile == 'many_ports':
         # near-duplicate names: equal under casefold(), so that any sort key coarser than the name itself ties
         for p in ports:
@@ -324,7 +363,7 @@ def _gen_spec(rng: Rng, want_mc, min_ports, profile, mc_triggers=False) -> dict:
     spec = {
         'basename': names.ident('file', rng.choice(['upper', 'any'])),
         'externs': externs, 'enums': enums, 'subints': subints, 'interfaces': interfaces,
-        'component': comp, 'decoys': decoys, 'extra_comps': extra_comps, 'mc': mc,
+        'component': comp, 'decoys': decoys, 'extra_comps': extra_comps, 'mc': mc, 'homonyms': bool(hom_pair),
         'fqns': sorted(list(f) for f in fqns),
     }
     _resolve_refs(spec, rng)
@@ -344,8 +383,9 @@ def _event(rng, evnames, itf, externs, enums, subints, force_dir=None, force_nam
     fn = NameGen(rng)
     formals = []
     nform = rng.weighted([(3, 0), (4, 1), (3, 2), (2, 3), (1, 4)]) if not many_formals else rng.between(2, 7)
+    twins = [e for e in externs if e.get('twin')]
     for _ in range(nform):
-        ext = rng.choice(externs)
+        ext = rng.choice(twins) if (twins and rng.chance(50)) else rng.choice(externs)
         fdir = 'in' if direction == 'out' else rng.weighted([(5, 'in'), (3, 'out'), (2, 'inout')])
         formals.append({'name': fn.ident('formal', rng.choice(['lower', 'any'])), 'dir': fdir,
                         'ext': ext['ns'] + [ext['name']]})
@@ -395,10 +435,12 @@ def spellings(target, scope, fqns):
 def _resolve_refs(spec, rng):
     fq = all_fqns(spec)
 
-    def ref(target, scope):
+    def ref(target, scope, prefer_short=False):
         opts = spellings(target, scope, fq)
         if not opts:
             raise Unresolvable(f'no unambiguous spelling for {target} from {scope}')
+        if prefer_short or rng.chance(40):
+            return list(min(opts, key=len))
         return list(rng.choice(opts))
 
     for itf in spec['interfaces'] + [d for d in spec['decoys'] if d['kind'] == 'interface']:
@@ -407,7 +449,7 @@ def _resolve_refs(spec, rng):
             if ev['ret']['kind'] in ('enum', 'subint'):
                 ev['ret']['ref'] = ref(ev['ret']['fqn'], scope)
             for f in ev['formals']:
-                f['ref'] = ref(f['ext'], scope)
+                f['ref'] = ref(f['ext'], scope, prefer_short=bool(f.get('short')))
     for comp in [spec['component']] + spec['extra_comps']:
         for p in comp['ports']:
             p['ref'] = ref(p['itf'], comp['ns'])
